@@ -3473,3 +3473,277 @@ Proof.
   - rewrite <- HR. exact Hbs.
   - rewrite (dec_fields_fixed_len _ _ _ Hd), <- Hvs. exact Hok.
 Qed.
+
+Fixpoint cfs_of (ps : list pfield) (ns : list node) : list cfield :=
+  match ps, ns with
+  | PF _ :: ps', n :: ns' => CFixed n :: cfs_of ps' ns'
+  | PV off _ :: ps', _ :: ns' => CVar off :: cfs_of ps' ns'
+  | _, _ => []
+  end.
+
+Lemma cfs_of_length : forall fs ps ns, dec_fields fs ps ns -> length (cfs_of ps ns) = length fs.
+Proof. induction 1; cbn [cfs_of length]; congruence. Qed.
+
+Lemma cont_unslots : forall fs ps ns, dec_fields fs ps ns ->
+  forall cur first fp prev scope rest,
+  offs_ok cur ps -> cur + lenN (flat_map pf_var ps) = scope -> scope < two32 ->
+  prev <= cur -> (first = true -> cur = fp) ->
+  s_cont_fixed (sfds fs) first fp prev scope (flat_map pf_fixed ps ++ rest)
+    = Some (cfs_of ps ns, rest) /\
+  s_cont_var (combine (cfs_of ps ns) (map sdc fs)) scope (flat_map pf_var ps) = Some ns /\
+  var_start (cfs_of ps ns) scope = cur.
+Proof.
+  induction 1 as [|f b n fs ps ns Hfx Hs Hl Hd IH|f off b n fs ps ns Hfx Hs Hd IH];
+    intros cur first fp prev scope rest Hok Hend Hsc Hprev Hfirst.
+  - cbn [flat_map] in Hend. change (lenN (@nil byte)) with 0 in Hend.
+    repeat split. unfold var_start. cbn [cfs_of cf_offs]. lia.
+  - cbn [offs_ok flat_map pf_fixed pf_var app] in *.
+    destruct (IH cur first fp prev scope rest Hok Hend Hsc Hprev Hfirst) as (I1 & I2 & I3).
+    cbn [map combine s_cont_fixed cfs_of s_cont_var]. rewrite Hfx, <- app_assoc, lenN_app.
+    destruct (N.ltb_spec (lenN b + lenN (flat_map pf_fixed ps ++ rest)) (ti_size (info f))); [lia|].
+    assert (Hn : nat_of (ti_size (info f)) = length b) by (unfold nat_of, lenN in *; lia).
+    rewrite Hn, firstn_app_exact, skipn_app_exact, Hs, I1, I2 by reflexivity. cbn [obind].
+    repeat split. exact I3.
+  - cbn [offs_ok flat_map pf_fixed pf_var] in *. destruct Hok as [-> Hok].
+    rewrite lenN_app in Hend.
+    destruct (IH (cur + lenN b) false fp cur scope rest Hok ltac:(lia) Hsc ltac:(lia)
+                 ltac:(discriminate)) as (I1 & I2 & I3).
+    cbn [map combine s_cont_fixed cfs_of]. rewrite Hfx, <- app_assoc, lenN_app.
+    unfold lenN at 1. rewrite le_bytes_length.
+    destruct (N.ltb_spec (N.of_nat 4 + lenN (flat_map pf_fixed ps ++ rest)) 4); [lia|].
+    rewrite (firstn_app_exact (le_bytes 4 cur)), (skipn_app_exact (le_bytes 4 cur))
+      by apply le_bytes_length.
+    rewrite le_val_u32 by lia.
+    destruct (N.ltb_spec cur prev); [lia|]. destruct (N.ltb_spec scope cur); [lia|].
+    assert (Hf : first && negb (cur =? fp) = false).
+    { destruct first; [|reflexivity]. rewrite (Hfirst eq_refl), N.eqb_refl. reflexivity. }
+    rewrite Hf, I1. cbn [obind]. split; [reflexivity|]. split.
+    + cbn [s_cont_var].
+      rewrite cf_next_offs by (rewrite map_length; apply (cfs_of_length _ _ _ Hd)).
+      assert (Hsz' : match match cf_offs (cfs_of ps ns) with [] => None | o :: _ => Some o end with
+                     | Some o' => o' - cur | None => scope - cur end
+                     = var_start (cfs_of ps ns) scope - cur)
+        by (unfold var_start; destruct (cf_offs (cfs_of ps ns)); reflexivity).
+      rewrite Hsz', I3. replace (cur + lenN b - cur) with (lenN b) by lia.
+      rewrite lenN_app. destruct (N.ltb_spec (lenN b + lenN (flat_map pf_var ps)) (lenN b)); [lia|].
+      assert (Hn : nat_of (lenN b) = length b) by (unfold nat_of, lenN; lia).
+      rewrite Hn, firstn_app_exact, skipn_app_exact, Hs, I2 by reflexivity. reflexivity.
+    + reflexivity.
+Qed.
+
+Lemma part_len_ge (p : part) : lenN (snd p) <= part_len p.
+Proof. unfold part_len. destruct (fst p); lia. Qed.
+
+Lemma fields_compl : forall fs, Forall compl_ty fs -> Forall info_ok fs ->
+  forall vs, rfields_ty fs vs = true ->
+  sumN (map part_len (ser_fields fs vs)) < two32 -> forall cur,
+  exists ns, dec_fields fs (layout cur (ser_fields fs vs)) ns /\
+             Forall2 (fun n (p : node -> Prop) => p n) ns (rfields_repr zh fs vs) /\
+             lenN ns = lenN fs.
+Proof.
+  induction fs as [|f fs IH]; intros HF Hio vs Hty Hlt cur.
+  - destruct vs; [|discriminate Hty]. exists []. repeat split; constructor.
+  - destruct vs as [|v vs]; [discriminate Hty|]. cbn [rfields_ty] in Hty.
+    apply andb_prop in Hty. destruct Hty as [Hv Hty].
+    cbn [ser_fields map] in Hlt. rewrite sumN_cons in Hlt.
+    pose proof (part_len_ge (spec_is_fixed f, spec_ser f v)) as Hpl. cbn [snd] in Hpl.
+    destruct (Forall_inv HF v Hv ltac:(lia)) as (n & Hn & Rn).
+    destruct (Forall_inv Hio) as (_ & _ & Hsize).
+    cbn [ser_fields layout rfields_repr]. destruct (spec_is_fixed f) eqn:Hsf.
+    + destruct (IH (Forall_inv_tail HF) (Forall_inv_tail Hio) vs Hty ltac:(lia) cur)
+        as (ns & Hd & Hr & Hlen).
+      exists (n :: ns). split; [|split].
+      * constructor; try assumption; [rewrite info_fixed_flag; exact Hsf|].
+        rewrite Hsize. apply spec_ser_fixed_len; assumption.
+      * constructor; assumption.
+      * rewrite !lenN_cons, Hlen. reflexivity.
+    + destruct (IH (Forall_inv_tail HF) (Forall_inv_tail Hio) vs Hty ltac:(lia)
+                   (cur + lenN (spec_ser f v))) as (ns & Hd & Hr & Hlen).
+      exists (n :: ns). split; [|split].
+      * constructor; try assumption. rewrite info_fixed_flag; exact Hsf.
+      * constructor; assumption.
+      * rewrite !lenN_cons, Hlen. reflexivity.
+Qed.
+
+Lemma compl_container fs :
+  wf_ty (TContainer fs) = true -> small_params (TContainer fs) = true ->
+  sizes_ok (TContainer fs) = true -> small_fields (TContainer fs) = true ->
+  Forall compl_ty fs -> compl_ty (TContainer fs).
+Proof.
+  intros Hwf Hsp Hso Hsf HF v Hty Hlt.
+  assert (Hio : info_ok (TContainer fs)) by (apply info_ok_of; assumption).
+  pose proof (sizes_ok_max _ Hso) as Hmax.
+  assert (Hios : Forall info_ok fs).
+  { cbn [small_params sizes_ok] in Hsp, Hso. apply andb_prop in Hso. destruct Hso as [_ Hso'].
+    pose proof (forallb_Forall2 _ _ _ Hsp Hso') as HH. eapply Forall_impl; [|exact HH].
+    cbv beta. intros f [H1 H2]. apply info_ok_of; assumption. }
+  assert (Hne : fs <> []).
+  { cbn [wf_ty] in Hwf. apply andb_prop in Hwf. destruct Hwf as [Hwf' _].
+    destruct fs; [discriminate Hwf'|discriminate]. }
+  pose proof (container_fp fs Hne Hios Hmax) as Hfp.
+  cbn [small_fields] in Hsf. apply andb_prop in Hsf. destruct Hsf as [Hcnt _]. apply N.leb_le in Hcnt.
+  pose proof (code_bounds (TContainer fs) v Hwf Hsp ltac:(rewrite <- two64_eq; exact Hmax) Hty)
+    as [Hmin Hmx].
+  destruct v; try discriminate Hty. rewrite has_type_cont in Hty.
+  rewrite spec_ser_cont in *. set (parts := ser_fields fs vs) in *.
+  set (F := sumN (map part_fixed_size parts)).
+  set (ps := layout F parts).
+  assert (Hparts : map pf_part ps = parts) by apply layout_parts.
+  assert (HFB : lenN (flat_map pf_fixed ps) = F).
+  { rewrite <- fixed_size_layout, Hparts. reflexivity. }
+  assert (Hbs : ser_parts parts = flat_map pf_fixed ps ++ flat_map pf_var ps).
+  { rewrite <- Hparts. apply ser_parts_layout. rewrite HFB. apply layout_ok. }
+  destruct (fields_compl fs HF Hios vs Hty ltac:(rewrite <- ser_parts_lenN; exact Hlt) F)
+    as (ns & Hd & Hr & Hlen).
+  fold parts in Hd. fold ps in Hd.
+  pose proof (dec_fields_fixed_len _ _ _ Hd) as HFp. rewrite HFB in HFp.
+  assert (Hscope : lenN (ser_parts parts) = F + lenN (flat_map pf_var ps)).
+  { rewrite Hbs, lenN_app, HFB. reflexivity. }
+  destruct (cont_unslots _ _ _ Hd F true (fixed_part_size fs) (wrap32 (fixed_part_size fs))
+              (lenN (ser_parts parts)) (flat_map pf_var ps)) as (U1 & U2 & _).
+  - apply layout_ok.
+  - symmetry. exact Hscope.
+  - exact Hlt.
+  - rewrite Hfp, <- HFp, wrap32_small by lia. lia.
+  - intros _. rewrite Hfp. exact HFp.
+  - destruct (build_container fs ns vs Hcnt Hr Hlen) as (nd & E & R).
+    exists nd. split; [|exact R]. cbn [sdec].
+    destruct (N.ltb_spec (lenN (ser_parts parts)) (ti_min (info (TContainer fs)))); [lia|].
+    destruct (N.ltb_spec (ti_max (info (TContainer fs))) (lenN (ser_parts parts))); [lia|].
+    cbn [orb]. rewrite Hbs at 1. rewrite <- Hbs at 1.
+    rewrite Hbs at 2. rewrite U1. cbn [obind]. rewrite U2. cbn [obind]. rewrite E. reflexivity.
+Qed.
+
+(* ---- unions ---- *)
+Lemma le_val_1 b : le_val [b] = N_of_byte b.
+Proof. cbn [le_val]. lia. Qed.
+
+Lemma canon_union none opts : Forall canon_ty opts -> canon_ty (TUnion none opts).
+Proof.
+  intros HF bs nd H. rewrite Forall_forall in HF. rewrite sdec_union in H.
+  destruct (N.eqb_spec (lenN bs) 0) as [|Hne]; [discriminate H|].
+  destruct bs as [|b rest]; [exfalso; apply Hne; reflexivity|].
+  cbv zeta in H. cbn [firstn skipn] in H. rewrite le_val_1 in H.
+  set (sel := N_of_byte b) in *. ifErr H.
+  assert (Hb : byte_of_N sel = b) by apply BP.byte_of_N_of_byte.
+  destruct (none && (sel =? 0)) eqn:Hnone.
+  - destruct (N.eqb_spec (lenN (b :: rest)) 1) as [Hl1|]; [|discriminate H]. cbn [negb] in H.
+    injection H as <-.
+    rewrite lenN_cons in Hl1. assert (rest = []) as -> by (apply lenN_zero_nil; lia).
+    exists (VUnion sel None). rewrite has_type_union, spec_ser_union, repr_union, Hnone, Hb.
+    split; [reflexivity|]. split; [reflexivity|]. eexists. split; reflexivity.
+  - rewrite pick_ty_nth_error in H.
+    destruct (nth_error opts (nat_of (if none then sel - 1 else sel))) as [o|] eqn:Eo;
+      [|discriminate H].
+    ifErr H. obindS H E. injection H as <-.
+    destruct (HF o (nth_error_In _ _ Eo) _ _ E) as (x & Hx & Hr & Rx).
+    exists (VUnion sel (Some x)). rewrite has_type_union, spec_ser_union, repr_union, Hnone, Hb.
+    rewrite rpick_nth_error, pick_ty_nth_error, Eo.
+    split; [exact Hx|]. split; [rewrite Hr; reflexivity|].
+    exists n. split; [reflexivity|]. rewrite rpick_nth_error, Eo. exact Rx.
+Qed.
+
+Lemma compl_union none opts :
+  wf_ty (TUnion none opts) = true -> small_params (TUnion none opts) = true ->
+  sizes_ok (TUnion none opts) = true ->
+  Forall compl_ty opts -> compl_ty (TUnion none opts).
+Proof.
+  intros Hwf Hsp Hso HF v Hty Hlt. rewrite Forall_forall in HF.
+  cbn [wf_ty] in Hwf. apply andb_prop in Hwf. destruct Hwf as [Hwf _].
+  apply andb_prop in Hwf. destruct Hwf as [_ Hcnt]. apply N.leb_le in Hcnt.
+  cbn [small_params sizes_ok] in Hsp, Hso. apply andb_prop in Hso. destruct Hso as [_ Hso].
+  destruct v; try discriminate Hty. rewrite has_type_union in Hty.
+  rewrite spec_ser_union in *. rewrite sdec_union. rewrite lenN_cons in *.
+  destruct (N.eqb_spec (1 + lenN match v with
+      | Some x => pick_ty [] (fun o : ty => spec_ser o x) opts (nat_of (if none then sel - 1 else sel))
+      | None => [] end) 0) as [|_]; [lia|].
+  cbv zeta. cbn [firstn skipn]. rewrite le_val_1.
+  destruct (none && (sel =? 0)) eqn:Hnone.
+  - destruct v as [x|]; [discriminate Hty|].
+    apply andb_prop in Hnone. destruct Hnone as [-> Hs0]. apply N.eqb_eq in Hs0. subst sel.
+    rewrite BP.N_of_byte_of_N by lia. unfold union_count, wrap8 in *.
+    rewrite N.mod_small by lia.
+    destruct (N.leb_spec (N.of_nat (length opts) + 1) 0) as [|_]; [lia|]. cbn [andb N.eqb].
+    change (lenN (@nil byte)) with 0. cbn [N.add N.eqb Pos.eqb negb].
+    eexists. split; [reflexivity|]. rewrite repr_union. eexists. split; reflexivity.
+  - rewrite rpick_nth_error in Hty.
+    destruct (nth_error opts (nat_of (if none then sel - 1 else sel))) as [o|] eqn:Eo;
+      [|discriminate Hty].
+    destruct v as [x|]; [|discriminate Hty].
+    pose proof (nth_error_In _ _ Eo) as Hin.
+    assert (Hk : (nat_of (if none then sel - 1 else sel) < length opts)%nat)
+      by (apply nth_error_Some; rewrite Eo; discriminate).
+    assert (Hsel : sel < union_count none opts).
+    { unfold union_count, nat_of in *. destruct none.
+      - cbn [andb] in Hnone. apply N.eqb_neq in Hnone. lia.
+      - lia. }
+    rewrite BP.N_of_byte_of_N by lia. unfold wrap8. rewrite N.mod_small by lia.
+    destruct (N.leb_spec (union_count none opts) sel) as [|_]; [lia|]. rewrite Hnone.
+    rewrite !pick_ty_nth_error, !Eo in *.
+    rewrite forallb_forall in Hsp, Hso.
+    destruct (info_ok_of o (Hsp o Hin) (Hso o Hin)) as (_ & _ & Hsize).
+    replace (1 + lenN (spec_ser o x) - 1) with (lenN (spec_ser o x)) by lia.
+    assert (Hfx : ti_fixed (info o) && negb (ti_size (info o) =? lenN (spec_ser o x)) = false).
+    { destruct (ti_fixed (info o)) eqn:Hf; [|reflexivity]. cbn [andb].
+      rewrite info_fixed_flag in Hf. rewrite Hsize, (spec_ser_fixed_len o x Hf Hty), N.eqb_refl.
+      reflexivity. }
+    rewrite Hfx.
+    destruct (HF o Hin x Hty ltac:(lia)) as (c & Ec & Rc). rewrite Ec. cbn [obind].
+    eexists. split; [reflexivity|]. rewrite repr_union. exists c. split; [reflexivity|].
+    rewrite rpick_nth_error, Eo. exact Rc.
+Qed.
+
+(* ---- all types ---- *)
+Theorem sdec_sound : forall t,
+  wf_ty t = true -> small_params t = true -> sizes_ok t = true -> small_fields t = true ->
+  canon_ty t.
+Proof.
+  induction t as [w| |k| |k|k|e k IHe|e k IHe|fs IHfs|none opts IHopts] using ty_ind';
+    intros Hwf Hsp Hso Hsf.
+  - apply canon_uint.
+  - apply canon_bool.
+  - apply canon_bytes.
+  - apply canon_root.
+  - apply canon_bitvector; assumption.
+  - apply canon_bitlist; assumption.
+  - apply canon_vector; try assumption. cbn [wf_ty small_params sizes_ok small_fields] in *.
+    apply andb_prop in Hwf, Hsp, Hso. apply IHe; tauto.
+  - apply canon_list; try assumption. cbn [wf_ty small_params sizes_ok small_fields] in *.
+    apply andb_prop in Hsp, Hso. apply IHe; tauto.
+  - apply canon_container; try assumption. cbn [wf_ty small_params sizes_ok small_fields] in *.
+    apply andb_prop in Hwf, Hso, Hsf. destruct Hwf as [_ Hwf], Hso as [_ Hso], Hsf as [_ Hsf].
+    rewrite forallb_forall in Hwf, Hsp, Hso, Hsf. rewrite Forall_forall in *.
+    intros f Hin. apply IHfs; auto.
+  - apply canon_union. cbn [wf_ty small_params sizes_ok small_fields] in *.
+    apply andb_prop in Hwf, Hso. destruct Hwf as [_ Hwf], Hso as [_ Hso].
+    rewrite forallb_forall in Hwf, Hsp, Hso, Hsf. rewrite Forall_forall in *.
+    intros f Hin. apply IHopts; auto.
+Qed.
+
+Theorem sdec_complete : forall t,
+  wf_ty t = true -> small_params t = true -> sizes_ok t = true -> small_fields t = true ->
+  compl_ty t.
+Proof.
+  induction t as [w| |k| |k|k|e k IHe|e k IHe|fs IHfs|none opts IHopts] using ty_ind';
+    intros Hwf Hsp Hso Hsf.
+  - apply compl_uint; assumption.
+  - apply compl_bool.
+  - apply compl_bytes.
+  - apply compl_root.
+  - apply compl_bitvector; assumption.
+  - apply compl_bitlist; assumption.
+  - apply compl_vector; try assumption. cbn [wf_ty small_params sizes_ok small_fields] in *.
+    apply andb_prop in Hwf, Hsp, Hso. apply IHe; tauto.
+  - apply compl_list; try assumption. cbn [wf_ty small_params sizes_ok small_fields] in *.
+    apply andb_prop in Hsp, Hso. apply IHe; tauto.
+  - apply compl_container; try assumption. cbn [wf_ty small_params sizes_ok small_fields] in *.
+    apply andb_prop in Hwf, Hso, Hsf. destruct Hwf as [_ Hwf], Hso as [_ Hso], Hsf as [_ Hsf].
+    rewrite forallb_forall in Hwf, Hsp, Hso, Hsf. rewrite Forall_forall in *.
+    intros f Hin. apply IHfs; auto.
+  - apply compl_union; try assumption. cbn [wf_ty small_params sizes_ok small_fields] in *.
+    apply andb_prop in Hwf, Hso. destruct Hwf as [_ Hwf], Hso as [_ Hso].
+    rewrite forallb_forall in Hwf, Hsp, Hso, Hsf. rewrite Forall_forall in *.
+    intros f Hin. apply IHopts; auto.
+Qed.
+
+End Canon.
